@@ -184,7 +184,8 @@ Proof.
     apply andb_true_iff in Hs as [Ha Hb]. apply negb_true_iff in Ha.
     cbn [step op_versions].
     destruct (dlookup (vdir s) a) as [i|] eqn:Ea.
-    2:{ destruct (name_eqb b t); rewrite app_nil_r; split; [|split]; assumption. }
+    2:{ destruct (name_eqb b t); rewrite app_nil_r; (split; [|split]); assumption. }
+    cbn [op_versions] in IV. rewrite Ea in IV.
     split; [|split]; cbn [ddir pend inodes next].
     + eapply good_incl; [|exact IV]. exact Hd.
     + intros e Hin Hn. apply in_app_or in Hin as [Hin | [<- | [<- | []]]].
